@@ -6,6 +6,7 @@ import (
 	"encoding/json"
 	"fmt"
 	"io/ioutil"
+	"net/http"
 	"net/http/httptest"
 	"net/url"
 	"os"
@@ -26,6 +27,7 @@ import (
 	"tkestack.io/kvass/pkg/coordinator"
 	"tkestack.io/kvass/pkg/discovery"
 	"tkestack.io/kvass/pkg/prom"
+	kscrape "tkestack.io/kvass/pkg/scrape"
 	"tkestack.io/kvass/pkg/shard"
 	"tkestack.io/kvass/pkg/sidecar"
 	"tkestack.io/kvass/pkg/target"
@@ -41,7 +43,7 @@ func hashOf(text string) (string, *config.Config, error) {
 }
 
 func recC16() *vkit.Recorder {
-	r := vkit.Rec("C16", "exploration", "rapid-generated configurations from a grammar (global, rule files, alerting, remote read/write with credentials, 1-4 jobs with auth/TLS/relabeling/five SD kinds) rendered in a generated formatting style; metamorphic oracle: hash(neutral(c)) == hash(c) for re-formatting (indent, quoting, key order, comments, flow lists) and external-label changes, hash(edit(c)) != hash(c) for a catalogue of ~90 single-setting edits each verified to change the loaded config (deep comparison incl. regexes and secrets); the hash is also recomputed in fresh child processes, read back from a real sidecar, and a real coordinator cycle must treat a sidecar as in sync iff it runs the same content; non-trivial = every case with >=1 effective edit; distinct = digest of (config, style, edits)")
+	r := vkit.Rec("C16", "exploration", "rapid-generated configurations from a grammar (global, rule files, alerting, remote read/write with credentials, 1-4 jobs with auth/TLS/relabeling/five SD kinds) rendered in a generated formatting style; metamorphic oracle: hash(neutral(c)) == hash(c) for re-formatting (indent, quoting, key order, comments, flow lists) and external-label changes, hash(edit(c)) != hash(c) for a catalogue of ~90 single-setting edits each verified to change the loaded config (deep comparison incl. regexes and secrets); refused reloads from a file leave content, hash and handed-out ConfigInfo objects untouched and the coordinator pushes the accepted content; after an old -> new reload every job's scrape client presents the credentials a fresh process presents; the hash is also recomputed in fresh child processes, read back from a real sidecar, and a real coordinator cycle must treat a sidecar as in sync iff it runs the same content; non-trivial = every case with >=1 effective edit; distinct = digest of (config, style, edits)")
 	r.Assume("hash collisions (2^-64) are ignored; writing a default value explicitly is not used as a neutral transformation (the statement promises insensitivity only to external labels and pure formatting)")
 	return r
 }
@@ -50,9 +52,10 @@ type c16Case struct {
 	Spec    *Spec    `json:"spec"`
 	Style   Style    `json:"style"`
 	Neutral []Style  `json:"neutral"`
-	ExtEdit []string `json:"extEdit"` // external label edits: add | change | remove | none
-	Edits   []string `json:"edits"`   // catalogue entry names, applied one at a time
-	EditSeq []int    `json:"editSeq"` // rapid bitstream replacement: choices inside edits are redrawn on replay
+	ExtEdit []string `json:"extEdit"`          // external label edits: add | change | remove | none
+	Edits   []string `json:"edits"`            // catalogue entry names, applied one at a time
+	EditSeq []int    `json:"editSeq"`          // rapid bitstream replacement: choices inside edits are redrawn on replay
+	Broken  int      `json:"broken,omitempty"` // which broken file variant the refused reload uses first
 }
 
 // nodeFor builds a real sidecar API service running the given configuration.
@@ -139,9 +142,10 @@ func decode(code int, data []byte, ret interface{}) error {
 }
 
 type oneShard struct {
-	svc   *sidecar.Service
-	mu    sync.Mutex
-	posts []string
+	svc    *sidecar.Service
+	mu     sync.Mutex
+	posts  []string
+	bodies []string
 }
 
 func (o *oneShard) Shards() ([]*shard.Shard, error) {
@@ -151,6 +155,7 @@ func (o *oneShard) Shards() ([]*shard.Shard, error) {
 		b, _ := json.Marshal(req)
 		o.mu.Lock()
 		o.posts = append(o.posts, u[strings.Index(u, "/api/"):])
+		o.bodies = append(o.bodies, string(b))
 		o.mu.Unlock()
 		c, d := serve(o.svc, "POST", u, b)
 		return decode(c, d, ret)
@@ -187,12 +192,26 @@ func coordinatorSeesInSync(textA, textB string) (bool, error) {
 	if err != nil {
 		return false, err
 	}
+	o, err := runCycle(cmA.ConfigInfo, svc)
+	if err != nil {
+		return false, err
+	}
+	for _, p := range o.posts {
+		if strings.HasPrefix(p, "/api/v1/shard/targets") {
+			return true, nil
+		}
+	}
+	return false, nil
+}
+
+// runCycle runs one real coordination cycle against one sidecar and returns what was posted to it.
+func runCycle(getConfig func() *prom.ConfigInfo, svc *sidecar.Service) (*oneShard, error) {
 	o := &oneShard{svc: svc}
 	st := &stepper{m: o, calls: make(chan int, 4), rel: make(chan struct{})}
 	active := map[uint64]*discovery.SDTargets{1: {Job: "j", ShardTarget: &target.Target{Hash: 1, Labels: labels.Labels{{Name: "__address__", Value: "a:1"}}}}}
 	good := target.NewScrapeStatus(1, 1)
 	good.Health = pscrape.HealthGood
-	c := coordinator.NewCoordinator(&coordinator.Option{MaxProcessSeries: 1000, MaxShard: 1, MinShard: 0}, st, cmA.ConfigInfo,
+	c := coordinator.NewCoordinator(&coordinator.Option{MaxProcessSeries: 1000, MaxShard: 1, MinShard: 0}, st, getConfig,
 		func(uint64) *target.ScrapeStatus { return good }, func() map[uint64]*discovery.SDTargets { return active }, prometheus.NewRegistry(), quiet)
 	ctx, cancel := context.WithCancel(context.Background())
 	done := make(chan struct{})
@@ -205,18 +224,159 @@ func coordinatorSeesInSync(textA, textB string) (bool, error) {
 				cancel()
 				close(st.rel)
 				<-done
-				for _, p := range o.posts {
-					if strings.HasPrefix(p, "/api/v1/shard/targets") {
-						return true, nil
-					}
-				}
-				return false, nil
+				return o, nil
 			}
 		case <-deadline:
 			cancel()
-			return false, fmt.Errorf("cycle did not complete")
+			return nil, fmt.Errorf("cycle did not complete")
 		}
 	}
+}
+
+// brokenVariant returns a file content that no configuration loader accepts, of a size close to the original's.
+func brokenVariant(text string, k int) string {
+	switch k % 4 {
+	case 0:
+		return text + "\nscrape_configs: {not: a list}\n"
+	case 1:
+		return text[:len(text)/2] + "\n  - ][ :\n"
+	case 2:
+		n := len(text) - 20
+		if n < 0 {
+			n = 0
+		}
+		return "global: [\n#" + strings.Repeat("x", n) + "\n"
+	}
+	return "global:\n  scrape_interval: not-a-duration\n" + strings.Repeat("# padding\n", len(text)/10)
+}
+
+// rejectedReload: a coordinator that loaded the content from a file, then refused a broken version of that file,
+// still runs - and pushes - the content it accepted (property: an out-of-sync shard is "first sent the current raw
+// configuration", and in sync means running exactly that).
+func rejectedReload(prop string, c *c16Case, text0, h0 string, add func(key, f string, a ...interface{})) []string {
+	d, err := ioutil.TempDir("", "c16-reload-")
+	if err != nil {
+		return nil
+	}
+	defer os.RemoveAll(d)
+	f := d + "/prometheus.yml"
+	_ = ioutil.WriteFile(f, []byte(text0), 0644)
+	cm := prom.NewConfigManager()
+	if cm.ReloadFromFile(f) != nil {
+		return nil
+	}
+	info0 := cm.ConfigInfo()
+	var cls []string
+	accepted, acceptedHash := text0, h0
+	steps := []string{"broken", "valid", "broken"}
+	for i, kind := range steps {
+		var txt string
+		if kind == "broken" {
+			txt = brokenVariant(accepted, c.Broken+i)
+		} else {
+			sp := c.Spec.Clone()
+			applyExt(sp, "add")
+			sp.EvalInterval = "47s"
+			txt = sp.Text(c.Neutral[0])
+		}
+		_ = ioutil.WriteFile(f, []byte(txt), 0644)
+		err := cm.ReloadFromFile(f)
+		if err == nil {
+			if kind == "broken" {
+				cls = append(cls, "reload/broken-file-accepted")
+			}
+			accepted = txt
+			acceptedHash, _, _ = hashOf(txt)
+			cls = append(cls, "reload/accepted")
+		} else {
+			cls = append(cls, "reload/refused")
+		}
+		cur := cm.ConfigInfo()
+		if string(cur.RawContent) != accepted {
+			add(prop+"/refused-reload-changes-current-config", "after step %d (%s file, reload error: %v) the current raw configuration is\n%q\nbut the last accepted content is\n%q", i, kind, err, cur.RawContent, accepted)
+			return cls
+		}
+		if cur.ConfigHash != acceptedHash {
+			add(prop+"/refused-reload-changes-current-config", "after step %d (%s file, reload error: %v) the current hash is %s, the hash of the last accepted content is %s", i, kind, err, cur.ConfigHash, acceptedHash)
+			return cls
+		}
+		if string(info0.RawContent) != text0 || info0.ConfigHash != h0 {
+			add(prop+"/handed-out-config-info-changes", "the ConfigInfo handed out after the first load changed after step %d (%s file): raw content now\n%q", i, kind, info0.RawContent)
+			return cls
+		}
+	}
+	// end to end: a shard that runs something else is sent exactly the accepted content and then agrees
+	svc, _, err := sidecarFor("global:\n  scrape_interval: 59s\n", false)
+	if err != nil {
+		return cls
+	}
+	o, err := runCycle(cm.ConfigInfo, svc)
+	if err != nil {
+		return cls
+	}
+	pushed := false
+	for i, p := range o.posts {
+		if strings.HasPrefix(p, "/api/v1/status/config") {
+			var r shard.UpdateConfigRequest
+			_ = json.Unmarshal([]byte(o.bodies[i]), &r)
+			pushed = true
+			if r.RawContent != accepted {
+				add(prop+"/pushed-config-is-not-the-current-one", "the coordinator pushed\n%q\nbut the content it accepted last is\n%q", r.RawContent, accepted)
+			}
+		}
+	}
+	if !pushed {
+		add(prop+"/out-of-sync-shard-not-sent-config", "a reachable shard with another hash was not sent the configuration")
+	}
+	cls = append(cls, "reload/end-to-end-push")
+	return cls
+}
+
+var authSrv struct {
+	once sync.Once
+	url  string
+}
+
+// presented returns what the job's scrape client sends as Authorization header (or how it fails).
+func presented(sm *kscrape.Manager, job string) string {
+	authSrv.once.Do(func() {
+		srv := httptest.NewServer(http.HandlerFunc(func(w http.ResponseWriter, r *http.Request) {
+			fmt.Fprintf(w, "authorization=%q", r.Header.Get("Authorization"))
+		}))
+		authSrv.url = srv.URL
+	})
+	ji := sm.GetJob(job)
+	if ji == nil {
+		return "no client"
+	}
+	resp, err := ji.Cli.Get(authSrv.url + "/metrics")
+	if err != nil {
+		return "error " + err.Error()
+	}
+	defer resp.Body.Close()
+	b, _ := ioutil.ReadAll(resp.Body)
+	return string(b)
+}
+
+// staleClients compares, job by job, a scrape manager that went through old -> new with one that only saw new.
+func staleClients(oldText, newText string, newCfg *config.Config) string {
+	long, fresh := kscrape.New(true, quiet), kscrape.New(true, quiet)
+	cmL, cmF := prom.NewConfigManager(), prom.NewConfigManager()
+	cmL.AddReloadCallbacks(long.ApplyConfig)
+	cmF.AddReloadCallbacks(fresh.ApplyConfig)
+	if cmL.ReloadFromRaw([]byte(oldText)) != nil || cmL.ReloadFromRaw([]byte(newText)) != nil || cmF.ReloadFromRaw([]byte(newText)) != nil {
+		return ""
+	}
+	for _, sc := range newCfg.ScrapeConfigs {
+		if sc.HTTPClientConfig.ProxyURL.URL != nil {
+			continue
+		}
+		l, f := presented(long, sc.JobName), presented(fresh, sc.JobName)
+		if l != f {
+			return fmt.Sprintf("the scrape client of job %q presents %s, a fresh process presents %s", sc.JobName, l, f)
+		}
+	}
+	return ""
 }
 
 func applyExt(s *Spec, how string) {
@@ -270,6 +430,9 @@ func runC16(rec *vkit.Recorder, c *c16Case, t *rapid.T) []vkit.Violation {
 			}
 			_ = os.RemoveAll(d)
 		}
+	}
+	if len(c.Neutral) > 0 {
+		cls = append(cls, rejectedReload("C16", c, text0, h0, add)...)
 	}
 	// neutral transformations
 	for i, st := range c.Neutral {
@@ -352,6 +515,14 @@ func runC16(rec *vkit.Recorder, c *c16Case, t *rapid.T) []vkit.Violation {
 				add("C16/hash-depends-on-reload-history/"+name, "after reloading from the old to the new content the hash is %s, a fresh process computes %s (edit %q)", hs, h1, name)
 			}
 		}
+		// "in sync" means running the coordinator's configuration: after the reload the scrape clients of the
+		// long-running process present the same credentials as those of a process started on the new content
+		if strings.Contains(name, "secret") || strings.Contains(name, "auth") || effective == 1 {
+			if diff := staleClients(text0, txt, cfg1); diff != "" {
+				add("C16/scrape-client-not-reloaded/"+name, "after reloading to the new content (edit %q) %s", name, diff)
+			}
+			cls = append(cls, "scrape-clients-compared")
+		}
 		if h1 == h0 {
 			add("C16/edit-not-detected/"+name, "edit %q changes the loaded configuration but not the hash (%s)\n--- before\n%s\n--- after\n%s", name, h0, text0, txt)
 			continue
@@ -375,7 +546,7 @@ func runC16(rec *vkit.Recorder, c *c16Case, t *rapid.T) []vkit.Violation {
 }
 
 func genC16(t *rapid.T) *c16Case {
-	c := &c16Case{Spec: GenSpec(t), Style: GenStyle(t, "style")}
+	c := &c16Case{Spec: GenSpec(t), Style: GenStyle(t, "style"), Broken: rapid.IntRange(0, 3).Draw(t, "broken")}
 	for i := 0; i < 2; i++ {
 		c.Neutral = append(c.Neutral, GenStyle(t, fmt.Sprintf("neutral%d", i)))
 		c.ExtEdit = append(c.ExtEdit, rapid.SampledFrom([]string{"none", "add", "change", "remove"}).Draw(t, fmt.Sprintf("ext%d", i)))
@@ -416,6 +587,56 @@ func TestC16(t *testing.T) {
 		}
 		if rec.WantSample() {
 			rec.Sample(map[string]interface{}{"edits": c.Edits, "extEdit": c.ExtEdit, "text": c.Spec.Text(c.Style)})
+		}
+	})
+}
+
+// TestC08Reload: C08's "is first sent the current raw configuration", with the coordinator's real config manager
+// (loaded from a file, one reload refused in between) instead of the stub the cycle scenarios use.
+func runC08Reload(rec *vkit.Recorder, c *c16Case) []vkit.Violation {
+	text0 := c.Spec.Text(c.Style)
+	h0, _, err := hashOf(text0)
+	if err != nil {
+		rec.Class("config-rejected")
+		return nil
+	}
+	var vs []vkit.Violation
+	cls := rejectedReload("C08", c, text0, h0, func(key, f string, a ...interface{}) {
+		vs = append(vs, vkit.Violation{Key: key, Msg: fmt.Sprintf(f, a...)})
+	})
+	cleanTemp()
+	b, _ := json.Marshal(c)
+	nt := false
+	for _, k := range cls {
+		if k == "reload/end-to-end-push" {
+			nt = true
+		}
+	}
+	rec.Eval(nt, vkit.Digest("c08reload", string(b)), cls...)
+	return vs
+}
+
+func TestReplayC08Reload(t *testing.T) {
+	rec := vkit.Rec("C08", "exploration", "")
+	for _, r := range vkit.LoadReplays("C08", "TestC08Reload") {
+		var c c16Case
+		if err := json.Unmarshal(r.Case, &c); err != nil {
+			t.Fatalf("%s: %v", r.Note, err)
+		}
+		if bad := rec.Filter(runC08Reload(rec, &c)); len(bad) > 0 {
+			t.Fatalf("%s: %s", r.Note, bad[0])
+		}
+		rec.Class("replayed-case")
+	}
+}
+
+func TestC08Reload(t *testing.T) {
+	rec := vkit.Rec("C08", "exploration", "")
+	rapid.Check(t, func(t *rapid.T) {
+		c := &c16Case{Spec: GenSpec(t), Style: GenStyle(t, "style"), Neutral: []Style{GenStyle(t, "neutral")}, Broken: rapid.IntRange(0, 3).Draw(t, "broken")}
+		if bad := rec.Filter(runC08Reload(rec, c)); len(bad) > 0 {
+			p := vkit.SaveViolation("C08", "TestC08Reload", c, bad, nil)
+			t.Fatalf("%s (replay %s)", bad[0], p)
 		}
 	})
 }
